@@ -8,11 +8,12 @@ from . import algo_common as ac
 
 PID = "C15"
 RULE = ("case = one history of API calls replayed on ONE shared Dataset and ONE shared ScoringScheme; histories are the "
-        "reachable states of spec/Session.tla (every sequence of <= 3 calls over 16 call kinds: score, cost table, both "
-        "partitions, 8 algorithms, read score/description, unified views, projection, ==/str); after every call an "
+        "reachable states of spec/Session.tla (every sequence of <= 3 calls over 18 call kinds: score, cost table, both "
+        "partitions, 9 algorithms, read score/description, score of a hand-built partial consensus, unified views, "
+        "projection, ==/str); after every call an "
         "abstract and a deep structural snapshot (private fields, object identities) of both inputs is taken; "
         "non-trivial = histories of >= 2 calls on datasets with >= 2 elements")
-EXHAUSTIVE = {"quick": "all 4368 non-empty histories of <= 3 calls, each on a (dataset, scheme) drawn from a pool of 24",
+EXHAUSTIVE = {"quick": "all 6174 non-empty histories of <= 3 calls over 18 call kinds, each on a (dataset, scheme) from a pool of 24",
               "thorough": "all histories x 4 (dataset, scheme) pools + 2000 random histories of 8 calls"}
 ASSUMPTIONS = ["within a session the algorithm OBJECTS are shared too (one instance per kind); in half of the sessions each "
                "shared instance first serves another dataset and its score is read, the fresh-copy twin uses fresh instances",
@@ -56,7 +57,7 @@ def _cases(rng, reps, pool_size):
         for k, h in enumerate(hs):
             D, s, nmg = pl[(k + rep) % len(pl)]
             out.append({"D": D, "sch": list(s), "naming": nmg, "calls": h, "seed": rng.randrange(10 ** 6),
-                        "warm": (k + rep) % 2})
+                        "warm": (k + rep) % 3})
     return out
 
 
@@ -69,7 +70,7 @@ def _random_long(rng, count):
         out.append({"D": D, "sch": list(rng.choice([ac.P_UNI1, ac.P_UNI5, ac.P_IND1, ac.P_PSE5, ac.P_EXT])),
                     "naming": rng.choice(["ints", "letters", "collide"]),
                     "calls": [rng.choice(kinds) for _ in range(8)], "seed": rng.randrange(10 ** 6),
-                    "warm": rng.randint(0, 1)})
+                    "warm": rng.randint(0, 2)})
     return out
 
 
